@@ -27,8 +27,8 @@ RULE = ("case = operation (12 API operations + the implied v3 discovery probe) x
 ASSUMPTIONS = [
     "non-minimal but valid BER (x690 writes length 127 as 81 7F) is accepted",
     "the request-id only has to be an Integer32 (identity with the response is C07)",
-    "for walk-style operations only the first request's OID multiset is fixed by the caller; continuation requests must "
-    "ask for OIDs the agent returned earlier",
+    "for walk-style operations every requested OID is a root or an OID the agent returned earlier, the first request asks "
+    "for roots only and every root is requested at some point (grouping and order are the implementation's choice)",
     "OIDs have >= 2 arcs, first arc 0..2, second arc < 40",
     "the wall clock stays inside Integer32 seconds",
 ]
@@ -214,15 +214,15 @@ def run_case(case) -> Result:
                 return bad("a read request binds something else than NULL", r)
             goids = [o for o, _, _ in got]
             if op in WALKS:
+                # only what the statement fixes: the client asks for the caller's roots and, to continue, for OIDs the
+                # agent returned earlier -- in whatever grouping and order it likes
                 roots = oids
-                if k == 0:
-                    if sorted(goids) != sorted(roots):
-                        return bad("first request asks for %s, the roots are %s" % (
-                            [vagent.S(o) for o in goids], [vagent.S(o) for o in roots]), r)
-                else:
-                    for o in goids:
-                        if o not in returned and o not in roots:
-                            return bad("continuation request asks for %s which the agent never returned" % vagent.S(o), r)
+                if k == 0 and not set(goids) <= set(roots):
+                    return bad("first request asks for %s, the roots are %s" % (
+                        [vagent.S(o) for o in goids], [vagent.S(o) for o in roots]), r)
+                for o in goids:
+                    if o not in returned and o not in roots:
+                        return bad("continuation request asks for %s which the agent never returned" % vagent.S(o), r)
             else:
                 want = oids if op != "bulkget" else [tuple(o) for o in case["scalars"] + case["repeaters"]]
                 if goids != want:
@@ -230,6 +230,13 @@ def run_case(case) -> Result:
                         [vagent.S(o) for o in goids], [vagent.S(o) for o in want]), r)
         for o, _, _ in (r.get("answer") or (0, 0, []))[2]:
             returned.add(o)
+    if op in WALKS and data_reqs:
+        asked = set()
+        for r2, pdu2 in data_reqs:
+            asked |= {o for o, _, _ in pdu2["vbs"]}
+        missing = [o for o in oids if o not in asked]
+        if missing and exc is None:
+            return bad("root %s was never requested" % vagent.S(missing[0]))
     if op not in WALKS and len(data_reqs) != 1:
         return bad("%d request datagrams for one %s" % (len(data_reqs), op))
     if not data_reqs:
